@@ -99,7 +99,14 @@ PROBES = ['break', 'return', 'return 5', 'stage row 0', 'end', 'else print 1',
           'define zz_r with zz_p print zz_p print zz_p',
           'set "Candle" begin stage row 0 end stage row 1',
           'repeat with zz_i from 1 to 3 print zz_i print zz_i',
-          'print 1 end', 'print { 1 + 2 } }', 'print 1 ]', 'hue 5 set all']
+          'print 1 end', 'print { 1 + 2 } }', 'print 1 ]', 'hue 5 set all',
+          # one macro name bound to another pattern (or to nothing) by the
+          # next text
+          'define zz_alarm 7:15 time at zz_alarm on all',
+          'define zz_alarm 22:40 time at zz_alarm off all',
+          'define zz_alarm 1*:*5 time at zz_alarm or 6:00 on all',
+          'time at zz_alarm on all', 'define zz_alarm 5 time zz_alarm on all',
+          'define zz_alarm 7:15 time at zz_alarm on all']
 
 
 def probe(rng, prev_toks):
